@@ -81,6 +81,15 @@ def _anon(x):
     return y
 
 
+def _md(j):
+    return {"metadata": j["metadata"], "provider": "dummy"} if j.get("metadata") else {}
+
+
+def _rk(j, which):
+    import json
+    return (j[which], j["dialect"], json.dumps(j.get("metadata"), sort_keys=True))
+
+
 def run(tier):
     run_ = evidence.Run(PID, tier, rule=RULE)
     rnd = common.rng("c14")
@@ -116,18 +125,33 @@ def run(tier):
             for d, unq, q in forms:
                 for mech in ("scoped", "env_after_import", "env_before_import"):
                     jobs.append({"mech": mech, "S": S, "dialect": d, "unq": unq, "q": q, "has_unq": True, "tags": ["stmt.dialect_specific_names"]})
+    # with a catalog that knows the tables under S: unqualified columns over a join, stars, positional INSERT - the completed names are looked up too
+    for i in range(6):
+        for S in ("zs_fresh", "sa"):
+            md = {f"{S}.tb_ca{i}": ["cu_a", "c1", "k"], f"{S}.tb_cb{i}": ["cu_b", "c2", "k"], f"{S}.tb_ct{i}": ["t1", "t2"], "zz.other": ["q"]}
+            forms = [
+                (f"insert into tb_cz{i} select cu_a, cu_b from tb_ca{i} x join tb_cb{i} y on x.k = y.k", f"insert into {S}.tb_cz{i} select cu_a, cu_b from {S}.tb_ca{i} x join {S}.tb_cb{i} y on x.k = y.k"),
+                (f"insert into tb_cz{i} select * from tb_ca{i}", f"insert into {S}.tb_cz{i} select * from {S}.tb_ca{i}"),
+                (f"insert into tb_ct{i} select x.c1, x.k from tb_ca{i} x", f"insert into {S}.tb_ct{i} select x.c1, x.k from {S}.tb_ca{i} x"),
+                (f"create table tb_cz{i} as select cu_a from tb_ca{i}, tb_cb{i}; insert into tb_cy{i} select * from tb_cz{i}",
+                 f"create table {S}.tb_cz{i} as select cu_a from {S}.tb_ca{i}, {S}.tb_cb{i}; insert into {S}.tb_cy{i} select * from {S}.tb_cz{i}"),
+            ]
+            unq, q = forms[i % len(forms)]
+            for d in ("ansi", "non-validating") if i % 2 else ("ansi",):
+                for mech in ("scoped", "env_after_import", "env_before_import"):
+                    jobs.append({"mech": mech, "S": S, "dialect": d, "unq": unq, "q": q, "has_unq": True, "tags": ["stmt.with_catalog"], "metadata": md})
     for k in ("pairs_compared", "env_before_import_compared", "scoped_compared", "env_after_import_compared", "no_default_uniform_checked", "env_after_a_closed_scope_compared"):
         run_.need(k)
     ref_cases = {}
     for j in jobs:
-        ref_cases.setdefault((j["q"], j["dialect"]), {"sql": j["q"], "dialect": j["dialect"], "want": []})
-        ref_cases.setdefault((j["unq"], j["dialect"]), {"sql": j["unq"], "dialect": j["dialect"], "want": []})
+        ref_cases.setdefault(_rk(j, "q"), {"sql": j["q"], "dialect": j["dialect"], "want": [], **_md(j)})
+        ref_cases.setdefault(_rk(j, "unq"), {"sql": j["unq"], "dialect": j["dialect"], "want": [], **_md(j)})
     keys = list(ref_cases)
     with Pool() as pool:
         rres = pool.map("vlib.observe:run_case", [ref_cases[k] for k in keys], timeout=180)
         refs = {k: r for k, (s, r) in zip(keys, rres) if s == "ok"}
         live = [j for j in jobs if j["mech"] != "env_before_import"]
-        lcases = [{"sql": j["unq"], "dialect": j["dialect"], "want": [], **({"config": {"DEFAULT_SCHEMA": j["S"]}} if j["mech"] == "scoped" else {"env": {"SQLLINEAGE_DEFAULT_SCHEMA": j["S"]}})} for j in live]
+        lcases = [{"sql": j["unq"], "dialect": j["dialect"], "want": [], **_md(j), **({"config": {"DEFAULT_SCHEMA": j["S"]}} if j["mech"] == "scoped" else {"env": {"SQLLINEAGE_DEFAULT_SCHEMA": j["S"]}})} for j in live]
         lres = pool.map("vlib.observe:run_case", lcases, timeout=180)
     results = {id(j): x for j, x in zip(live, lres)}
     # history mechanism: an earlier, closed scope set another default schema on the same thread; the analysed script then runs inside a scope that
@@ -136,7 +160,7 @@ def run(tier):
     with Pool() as pool:
         hres = pool.map("vlib.observe:run_sequence",
                         [[{"sql": "select k from stale_tab", "dialect": "ansi", "want": [], "config": {"DEFAULT_SCHEMA": "stale_zz"}},
-                          {"sql": j["unq"], "dialect": j["dialect"], "want": [], "env": {"SQLLINEAGE_DEFAULT_SCHEMA": j["S"]}, "config": {"LATERAL_COLUMN_ALIAS_REFERENCE": False}}] for j in hist], timeout=240)
+                          {"sql": j["unq"], "dialect": j["dialect"], "want": [], **_md(j), "env": {"SQLLINEAGE_DEFAULT_SCHEMA": j["S"]}, "config": {"LATERAL_COLUMN_ALIAS_REFERENCE": False}}] for j in hist], timeout=240)
     for j, (st_, rs) in zip(hist, hres):
         results[id(j)] = (st_, rs[1] if st_ == "ok" else rs)
     jobs = jobs + hist
@@ -145,12 +169,12 @@ def run(tier):
         if not sub:
             continue
         with Pool(NCPU // 2, extra_env={"SQLLINEAGE_DEFAULT_SCHEMA": S}) as pool:
-            res = pool.map("vlib.observe:run_case", [{"sql": j["unq"], "dialect": j["dialect"], "want": []} for j in sub], timeout=180)
+            res = pool.map("vlib.observe:run_case", [{"sql": j["unq"], "dialect": j["dialect"], "want": [], **_md(j)} for j in sub], timeout=180)
         for j, x in zip(sub, res):
             results[id(j)] = x
     # no default: the placeholder schema is used uniformly
     ok_owner = re.compile(r"^(<default>|sa|sb)\.")
-    for (sql, d), r in refs.items():
+    for (sql, d, _m), r in refs.items():
         if r["outcome"] == "ok" and any(sql == j["unq"] for j in jobs[:400]):
             run_.observe("no_default_uniform_checked")
             names = list(r["source"]) + list(r["target"]) + list(r["intermediate"])
@@ -163,7 +187,7 @@ def run(tier):
         if not run_.pool_status(st, r, b):
             run_.case()
             continue
-        ref = refs.get((j["q"], j["dialect"]))
+        ref = refs.get(_rk(j, "q"))
         if ref is None:
             run_.inconc("no reference record")
             continue
